@@ -128,9 +128,6 @@ class Models(Structural):
             return isinstance(x, ObjVal) and x.cls.is_subclass(cls)
         raise EngineError('isinstance with %r' % (cls,))
 
-    @reg('numpy.ndarray')
-    def np_ndarray_type(self, *a, **k):
-        raise EngineError('np.ndarray constructor')
 
     @reg('builtins.hasattr')
     def b_hasattr(self, x, name):
